@@ -187,6 +187,20 @@ def check(ctx, rep):
     er = ctx.fn(A + ':Arrays.erase_')
     dels = sorted(norm(n.targets[0]) for n in own_nodes(er) if isinstance(n, ast.Delete))
     rep.ob('erase.tables-together', 'ERASE removes the array from all three tables', dels == ['self._array_memory[name]', 'self._buffers[name]', 'self._dims[name]'], repr(dels), ctx.where(er))
+    # the space of EVERY erased array is given back: the decrement of `current` sits in the per-name loop, next to the deletes
+    outer = [f for f in er.body if isinstance(f, ast.For) and norm(f.iter) == 'args']
+    dec = [a for a in own_nodes(er) if isinstance(a, ast.AugAssign) and norm(a.target) == 'self.current' and isinstance(a.op, ast.Sub)]
+    rep.ob('erase.space-returned-per-array', 'erase_: `self.current -= freed_bytes` once per erased array (inside the loop over the names)',
+           len(outer) == 1 and len(dec) == 1 and dec[0] in outer[0].body and norm(dec[0].value) == 'freed_bytes',
+           'with several names only the last array`s bytes are returned: ERASE A#,B# followed by DIM of both ends in Out of memory', ctx.where(er))
+    # subscripts are converted as SIGNED integers, so that a negative one reaches check_dim (Illegal function call)
+    pi = ctx.fn('pcbasic/basic/parser/expressions.py:ExpressionParser.parse_indices')
+    conv = [c for c in own_nodes(pi) if isinstance(c, ast.Call) and norm(c.func) == 'values.to_int']
+    rep.floor('subscripts.signed-conversion', len(conv), 1, 'subscript conversions')
+    for c in conv:
+        unsigned = len(c.args) > 1 or any(k.arg == 'unsigned' and norm(k.value) != 'False' for k in c.keywords)
+        rep.ob('subscripts.signed-conversion', 'parse_indices: %s' % short(c, 50), not unsigned,
+               'a negative subscript is wrapped to 65536+n: A(-1) gives Subscript out of range instead of Illegal function call', ctx.where(c))
     fl = ctx.flow(er)
     ifc = [r for r, c in ctx.raises_in(er) if c == 'ILLEGAL_FUNCTION_CALL']
     rep.ob('erase.missing', 'ERASE of a missing array raises IFC', len(ifc) == 1 and fl.knows(ifc[0], 'name not in self._dims', True), '', ctx.where(er))
@@ -250,6 +264,9 @@ def variants(ctx):
            in_fn('Arrays.allocate', lambda fn: mu.replace_expr(fn, mu.text_is('any(_d < self._base for _d in dimensions)'), 'all(_d < self._base for _d in dimensions)')), expect='allocate.every-bound-tested'),
         Va('get-of-undeclared-array-returns-null', 'break', A,
            in_fn('Arrays.get', lambda fn: mu.insert_first(fn, "if name not in self._dims:\n    return self._values.new(name[-1:])")), expect='accessors.through-view-buffer'),
+        Va('erase-returns-space-of-last-array-only', 'break', A, in_fn('Arrays.erase_', _dedent_decrement), expect='erase.space-returned-per-array'),
+        Va('subscripts-converted-unsigned', 'break', 'pcbasic/basic/parser/expressions.py',
+           lambda tree: mu.replace_expr(mu.find_def(tree, 'ExpressionParser.parse_indices'), mu.text_is('values.to_int(expr)'), 'values.to_int(expr, unsigned=True)'), expect='subscripts.signed-conversion'),
         Va('auto-dim-11', 'break', A,
            in_fn('Arrays.check_dim', lambda fn: mu.replace_expr(fn, mu.text_is('[10] * len(index)'), '[11] * len(index)')), expect='auto-dim'),
         Va('radix-too-small', 'break', A,
@@ -276,3 +293,16 @@ def _swap_loop_body(fn):
     lp = [n for n in fn.body if isinstance(n, ast.For)][0]
     lp.body.reverse()
     return True
+
+
+def _dedent_decrement(fn):
+    lp = [f for f in fn.body if isinstance(f, ast.For)]
+    if len(lp) != 1:
+        return False
+    st = [x for x in lp[0].body if isinstance(x, ast.AugAssign) and norm(x.target) == 'self.current']
+    if len(st) != 1:
+        return False
+    lp[0].body.remove(st[0])
+    fn.body.insert(fn.body.index(lp[0]) + 1, st[0])
+    return True
+
